@@ -508,6 +508,7 @@ func init() {
 				{Name: "tenant_sequences", N: c.Pick(120, 1200), Fn: func(r *core.Run, idx int, rng *rand.Rand) {
 					tenantSequence(r, "tenant_sequences", idx, rng, true, false)
 				}},
+				{Name: "tenants_overlapping", N: c.Pick(30, 300), Fn: func(r *core.Run, idx int, rng *rand.Rand) { tenantOverlap(r, "tenants_overlapping", idx, rng) }},
 			}
 		},
 	})
